@@ -3,12 +3,14 @@ package main
 // Running the SMT solvers: z3 5.1.0 (z3-new) first, then z3 4.8.12 and cvc5 1.0 in parallel.
 
 import (
+	"bufio"
 	"bytes"
 	"context"
 	"fmt"
 	"os"
 	"os/exec"
 	"path/filepath"
+	"sort"
 	"strings"
 	"sync"
 	"time"
@@ -238,4 +240,214 @@ func solveAll(obls []*obligation, opts solveOpts) {
 	}
 	close(ch)
 	wg.Wait()
+}
+
+// ---- incremental first pass -------------------------------------------------------------------------------------
+//
+// The obligations of one function share their assumptions (an obligation created later sees a longer prefix of the
+// same list). Sending the whole prefix to a fresh solver process for every obligation costs more time in parsing
+// than in solving, so the quick tier first walks each function's obligations in one z3 process: assumptions are
+// asserted as the walk reaches them, every goal is checked between push and pop under a soft per-query timeout.
+// Only `unsat` answers are taken from this pass; everything else (sat, unknown, timeout, a solver that dies) goes
+// to the portfolio of fresh processes as before, which also produces the models and the second opinions.
+
+type incJob struct {
+	ctx  *smtctx
+	obls []*obligation // ascending NAssume, none ExpectSat
+}
+
+func (c *smtctx) incPrelude() string {
+	var sb strings.Builder
+	sb.WriteString(preludeFixed)
+	for _, d := range c.sortDecls {
+		sb.WriteString(d)
+		sb.WriteString("\n")
+	}
+	for _, d := range c.decls {
+		sb.WriteString(d)
+		sb.WriteString("\n")
+	}
+	if c.needWF {
+		for _, a := range c.wfAxioms {
+			sb.WriteString("(assert " + a + ")\n")
+		}
+	}
+	return sb.String()
+}
+
+func runIncremental(job incJob, opts solveOpts) {
+	c := job.ctx
+	perQuery := opts.timeout
+	if perQuery > 4*time.Second {
+		perQuery = 4 * time.Second
+	}
+	budget := time.Duration(len(job.obls))*perQuery + 20*time.Second
+	ctx, cancel := context.WithTimeout(context.Background(), budget)
+	defer cancel()
+	cmd := exec.CommandContext(ctx, "z3-new", "-in", "-smt2", fmt.Sprintf("-t:%d", perQuery.Milliseconds()))
+	stdin, err := cmd.StdinPipe()
+	if err != nil {
+		return
+	}
+	stdout, err := cmd.StdoutPipe()
+	if err != nil {
+		return
+	}
+	if err := cmd.Start(); err != nil {
+		return
+	}
+	defer func() {
+		stdin.Close()
+		cmd.Process.Kill()
+		cmd.Wait()
+	}()
+	type answer struct {
+		idx   int
+		lines []string
+	}
+	answers := make(chan answer, len(job.obls))
+	go func() {
+		rd := bufio.NewReaderSize(stdout, 1<<16)
+		var cur []string
+		for {
+			line, err := rd.ReadString('\n')
+			line = strings.TrimSpace(line)
+			if strings.HasPrefix(line, "\"done-") || strings.HasPrefix(line, "done-") {
+				var i int
+				fmt.Sscanf(strings.Trim(line, "\""), "done-%d", &i)
+				answers <- answer{i, cur}
+				cur = nil
+			} else if line != "" {
+				cur = append(cur, line)
+			}
+			if err != nil {
+				close(answers)
+				return
+			}
+		}
+	}()
+	w := bufio.NewWriterSize(stdin, 1<<20)
+	w.WriteString("(set-option :produce-models false)\n")
+	prelude := c.incPrelude()
+	w.WriteString(prelude)
+	cum := len(prelude)
+	asserted := 0
+	misses := 0
+	for i, o := range job.obls {
+		if misses >= 3 {
+			return // this function's queries are not for the incremental pass: the portfolio takes over
+		}
+		n := o.NAssume
+		if n > len(c.assumes) {
+			n = len(c.assumes)
+		}
+		for ; asserted < n; asserted++ {
+			w.WriteString("(assert " + c.assumes[asserted] + ")\n")
+			cum += len(c.assumes[asserted]) + 10
+		}
+		o.SizeB = cum + len(o.Goal)
+		w.WriteString("(push 1)\n(assert " + o.Goal + ")\n(check-sat)\n(pop 1)\n")
+		fmt.Fprintf(w, "(echo \"done-%d\")\n", i)
+		if err := w.Flush(); err != nil {
+			return
+		}
+		t0 := time.Now()
+		select {
+		case a, ok := <-answers:
+			if !ok {
+				return
+			}
+			if a.idx == i && len(a.lines) == 1 && a.lines[0] == "unsat" {
+				o.Status, o.Solver = "discharged", "z3-new(incremental)"
+				o.Secs = time.Since(t0).Seconds()
+				o.Output = fmt.Sprintf("z3-new incremental: unsat (%.2fs)", o.Secs)
+				misses = 0
+			} else if a.idx != i || len(a.lines) != 1 {
+				return // out of step (an error message from the solver): leave the rest to the portfolio
+			} else {
+				misses++
+			}
+		case <-time.After(perQuery + 10*time.Second):
+			return
+		case <-ctx.Done():
+			return
+		}
+	}
+}
+
+// solveAllQuick: incremental first pass per function, then the portfolio on whatever is still undecided.
+func solveAllQuick(obls []*obligation, opts solveOpts) {
+	if opts.workers <= 0 {
+		opts.workers = 8
+	}
+	groups := map[*smtctx][]*obligation{}
+	var order []*smtctx
+	for _, o := range obls {
+		if o.ExpectSat || o.ctx == nil {
+			continue
+		}
+		if _, ok := groups[o.ctx]; !ok {
+			order = append(order, o.ctx)
+		}
+		groups[o.ctx] = append(groups[o.ctx], o)
+	}
+	var jobs []incJob
+	for _, c := range order {
+		g := groups[c]
+		if len(g) < 3 {
+			continue
+		}
+		sort.SliceStable(g, func(i, j int) bool { return g[i].NAssume < g[j].NAssume })
+		// large functions are walked by several processes, each starting from the prefix its first goal needs
+		chunks := 1
+		if len(g) > 60 {
+			chunks = (len(g) + 59) / 60
+			if chunks > 6 {
+				chunks = 6
+			}
+		}
+		per := (len(g) + chunks - 1) / chunks
+		for s := 0; s < len(g); s += per {
+			e := s + per
+			if e > len(g) {
+				e = len(g)
+			}
+			jobs = append(jobs, incJob{ctx: c, obls: g[s:e]})
+		}
+	}
+	// longest jobs first
+	sort.SliceStable(jobs, func(i, j int) bool { return len(jobs[i].obls) > len(jobs[j].obls) })
+	ch := make(chan incJob)
+	var wg sync.WaitGroup
+	for i := 0; i < opts.workers; i++ {
+		wg.Add(1)
+		go func() {
+			defer wg.Done()
+			for j := range ch {
+				runIncremental(j, opts)
+			}
+		}()
+	}
+	for _, j := range jobs {
+		ch <- j
+	}
+	close(ch)
+	wg.Wait()
+	var rest []*obligation
+	for _, o := range obls {
+		if o.Status == "" {
+			rest = append(rest, o)
+		}
+	}
+	solveAll(rest, opts)
+	if opts.dumpDir != "" {
+		for _, o := range obls {
+			if o.SizeB == 0 && o.ctx != nil {
+				script := o.ctx.scriptMode(o.NAssume, o.Goal, nil, o.ExpectSat)
+				o.SizeB = len(script)
+				os.MkdirAll(opts.dumpDir, 0o755)
+				os.WriteFile(filepath.Join(opts.dumpDir, mangle(o.Name)+".smt2"), []byte(script), 0o644)
+			}
+		}
+	}
 }
